@@ -254,7 +254,8 @@ func (s *sampler[R]) Next() (int, int) {
 		s.first = false
 	}
 	skip := math.Floor(math.Log(s.r.Float64()) / math.Log(1-s.w))
-	if math.IsInf(skip, 0) || math.IsNaN(skip) {
+	if math.IsInf(skip, 0) || math.IsNaN(skip) || skip >= float64(math.MaxInt-s.i) {
+		// (the last: s.i+skip+1 does not fit an int, so the next index is past every input)
 		return math.MaxInt, 0
 	}
 	s.i += int(skip) + 1
